@@ -154,6 +154,17 @@ Theorem judgement_record_is_the_call_log : forall x log pv lv,
 Proof. exact track_step_log. Qed.
 Print Assumptions judgement_record_is_the_call_log.
 
+(* ... and the resolver: what Check.prop_resolver accepts as the most recent cc.UpdateState
+   (Check.pub_ok, with the property's own 32, against the truth [t] of the event history) consists
+   of registered values, of ALL of them when there are at most 32, and of exactly 32 otherwise. *)
+Theorem resolver_judgement_is_sound : forall pub t, NoDup (mkeys t) ->
+  Check.pub_ok pub (Check.vals_of t) = true ->
+  (forall a, In a pub -> registered t a) /\
+  (Z.of_nat (length (Check.vals_of t)) <= 32 -> forall a, registered t a -> In a pub) /\
+  (32 < Z.of_nat (length (Check.vals_of t)) -> Z.of_nat (length pub) = 32).
+Proof. exact resolver_judgement_sound. Qed.
+Print Assumptions resolver_judgement_is_sound.
+
 (* non-vacuity: etcd: put 1=10, put 2=20; a non-exclusive subscriber that showed [10] before and
    shows [10; 20] now, notified once with the final view *)
 Example ex_judgement :
